@@ -93,6 +93,10 @@ EXPLANATION += (
     ' Round 13: positions-as-stored (with C01); the child-to-parent table is keyed per level (node identity, rule of C10).'
 )
 
+EXPLANATION += (
+    ' Round 14: the bootstrap sample size is not floored above the population (R-CAP/sample-within-population, rule of C02).'
+)
+
 RULE_TEXT = (
     "one obligation per cache-path argument, per indexed comprehension, "
     "per cache dataset, per log conditional, per error condition, per "
